@@ -376,49 +376,68 @@ Definition Nstr (n : N) : str :=
       end in
   go 20%nat n [].
 
+(* how one back end names things: the declared name of a definition of the rendered proto
+   (kind, enclosing message names, own name), member names, Go tags, size constants, and
+   type references.  The identifier lists below are generic in it, so that the same
+   traversal serves the model ([model_namer]) and the specification (NamesT2.spec_namer). *)
+Record namer := {
+  nm_def : kind -> list str -> str -> str;
+  nm_field : str -> str;
+  nm_tag : str -> str;
+  nm_size : str -> str;
+  nm_tref : tref -> option str;
+  nm_encode : str -> str;      (* C: name of the encoder of a message, from its struct name *)
+  nm_decode : str -> str;
+  nm_json : str -> str;
+  nm_menc : str;               (* Go / Python: method names *)
+  nm_mdec : str;
+  nm_msize : str;
+  nm_mextra : list str         (* Python: public methods every message class inherits *)
+}.
+
 Section Decls.
   Variable l : lang.
   Variable opt : bool.       (* C optimization mode (-O) *)
-  Variable popt : str.       (* option c.name_prefix of the rendered proto *)
+  Variable N : namer.
 
   Definition field_idents (owner : str) (f : fieldn) : list ident :=
-    let fname := field_name l (f_name f) in
+    let fname := nm_field N (f_name f) in
     [(IField owner, fname)] ++
-    (match type_ref l (f_type f) with
+    (match nm_tref N (f_type f) with
      | Some t => [(IFieldType owner, fname ++ Str ":" ++ t)]
      | None => []
      end) ++
     (match l with
-     | LGo => [(ITag owner, fname ++ Str ":" ++ go_tag fname)]
+     | LGo => [(ITag owner, fname ++ Str ":" ++ nm_tag N fname)]
      | _ => []
      end).
 
   Definition message_idents (n : str) (fields : list fieldn) : list ident :=
     match l with
     | LC =>
-        [(IStruct, n); (IMacro, size_const l n); (IFunc, c_encode_fn n); (IFunc, c_decode_fn n)] ++
+        [(IStruct, n); (IMacro, nm_size N n); (IFunc, nm_encode N n); (IFunc, nm_decode N n)] ++
         (if opt then [] else
-           [(IFunc, c_json_fn n); (IFunc, c_processor_fn n); (IFunc, c_jsonfmt_fn n);
+           [(IFunc, nm_json N n); (IFunc, c_processor_fn n); (IFunc, c_jsonfmt_fn n);
             (IFunc, c_fdinit_fn n)] ++
            flat_map (fun f => if is_array (f_type f)
                               then [(IFunc, c_array_processor_fn n (Nstr (f_number f)));
                                     (IFunc, c_array_jsonfmt_fn n (Nstr (f_number f)))]
                               else []) fields)
     | LGo =>
-        [(IType, n); (IConst, size_const l n); (IMethod n, Str go_encode_method);
-         (IMethod n, Str go_decode_method); (IMethod n, Str go_size_method)]
+        [(IType, n); (IConst, nm_size N n); (IMethod n, nm_menc N);
+         (IMethod n, nm_mdec N); (IMethod n, nm_msize N)]
     | LPy =>
-        [(IClass, n); (IAttr n, size_const l n); (IMethod n, Str py_encode_method);
-         (IMethod n, Str py_decode_method)]
+        [(IClass, n); (IAttr n, nm_size N n); (IMethod n, nm_menc N); (IMethod n, nm_mdec N)] ++
+        map (fun m => (IMethod n, m)) (nm_mextra N)
     end ++ flat_map (field_idents n) fields.
 
   Fixpoint decl_idents (encl : list str) (d : decl) : list ident :=
     match d with
     | DConst name =>
-        let n := def_name l KConstant popt encl name in
+        let n := nm_def N KConstant encl name in
         [(match l with LC => IMacro | LGo => IConst | LPy => IVar end, n)]
     | DAlias name t =>
-        let n := def_name l KAlias popt encl name in
+        let n := nm_def N KAlias encl name in
         match l with
         | LC => [(ITypedef, n)] ++
                 (if opt then [] else
@@ -428,26 +447,41 @@ Section Decls.
         | LGo => [(IType, n)]
         | LPy => [(IVar, n)]
         end ++
-        (match type_ref l t with Some tr => [(IFieldType n, tr)] | None => [] end)
+        (match nm_tref N t with Some tr => [(IFieldType n, tr)] | None => [] end)
     | DEnum name members =>
-        let n := def_name l KEnum popt encl name in
+        let n := nm_def N KEnum encl name in
         (match l with LC => [(ITypedef, n)] | LGo => [(IType, n)] | LPy => [(IClass, n)] end) ++
-        map (fun m => (match l with LC => IMacro | LGo => IConst | LPy => IAttr n end,
-                       def_name l KEnumField popt encl m)) members
+        (* Python declares every member twice: as class attribute and as module-level name *)
+        flat_map (fun m => let mn := nm_def N KEnumField encl m in
+                           (match l with LC => IMacro | LGo => IConst | LPy => IAttr n end, mn) ::
+                           (match l with LPy => [(IVar, mn)] | _ => [] end)) members
     | DMessage name nested fields =>
-        let n := def_name l KMessage popt encl name in
+        let n := nm_def N KMessage encl name in
         flat_map (decl_idents (encl ++ [name])) nested ++ message_idents n fields
     end.
 End Decls.
 
+(* the model: bitproto's own naming functions; [popt] = option c.name_prefix of the proto *)
+Definition model_namer (l : lang) (popt : str) : namer :=
+  {| nm_def := fun k encl n => def_name l k popt encl n;
+     nm_field := field_name l;
+     nm_tag := go_tag;
+     nm_size := size_const l;
+     nm_tref := type_ref l;
+     nm_encode := c_encode_fn; nm_decode := c_decode_fn; nm_json := c_json_fn;
+     nm_menc := Str (match l with LPy => py_encode_method | _ => go_encode_method end);
+     nm_mdec := Str (match l with LPy => py_decode_method | _ => go_decode_method end);
+     nm_msize := Str go_size_method;
+     nm_mextra := match l with LPy => [Str py_to_json_method; Str py_to_dict_method] | _ => [] end |}.
+
 Definition proto_idents (l : lang) (opt : bool) (p : proton) : list ident :=
-  flat_map (decl_idents l opt (p_prefix p) []) (p_decls p).
+  flat_map (decl_idents l opt (model_namer l (p_prefix p)) []) (p_decls p).
 
 (* ------------------------------------------------------------------------------------ *)
 (* boolean equalities (used by the correspondence case files)                            *)
 (* ------------------------------------------------------------------------------------ *)
 
-Definition ascii_eqb (a b : ascii) : bool := (code a =? code b)%N.
+Definition ascii_eqb (a b : ascii) : bool := Ascii.eqb a b.
 
 Fixpoint str_eqb (a b : str) : bool :=
   match a, b with
